@@ -52,6 +52,8 @@ def count(lo, hi):
 
 
 def nontrivial(op, result):
+    if op.startswith("cmp ") or op.startswith("regs "):
+        return result != "bad-op"
     return " n=0 " not in result and not result.endswith("cells=-") and result != "bad-op"
 
 
@@ -104,6 +106,56 @@ def refine(op):
 def rdims(r, n, hi=9):
     """random size: small extents, zero and one-wide dimensions frequent"""
     return [r.choice([0, 1, 1, 2, 3, 4, 5, r.range(0, hi)]) for _ in range(n)]
+
+
+REG_KINDS = ["cc", "mc", "ca", "ma", "sm", "sf"]
+
+
+def reg_apply(moved, op):
+    """the legality rule of a special-member call (which objects are moved-from); returns the new flags or None"""
+    k, d, s = op[:2], int(op[2]), int(op[3])
+    m = list(moved)
+    if k in ("cc", "mc") and d == s:
+        return None
+    if k in ("cc", "ca"):
+        if m[s]:
+            return None
+        m[d] = False
+    elif k == "mc" or (k == "ma" and d != s):
+        if m[s]:
+            return None
+        m[d], m[s] = False, True
+    elif k in ("sm", "sf"):
+        m[d], m[s] = m[s], m[d]
+    return m
+
+
+REG_OPS = [f"{k}{d}{s}" for k in REG_KINDS for d in range(3) for s in range(3)]
+
+
+def reg_programs(length):
+    """all legal histories of exactly `length` special-member calls over three objects"""
+    def go(prefix, moved, n):
+        if n == 0:
+            yield prefix
+            return
+        for op in REG_OPS:
+            m = reg_apply(moved, op)
+            if m is not None:
+                yield from go(prefix + [op], m, n - 1)
+    yield from go([], [False] * 3, length)
+
+
+def cmp_cells(n):
+    """cell lists of length n that differ from 1..n at the first / a middle / the last cell by +-1, and 1..n itself"""
+    base = list(range(1, n + 1))
+    out = [base]
+    for j in sorted({0, n // 2, n - 1} & set(range(n))):
+        for dlt in (-1, 1):
+            c = list(base)
+            c[j] += dlt
+            out.append(c)
+    return out
 
 
 def batches(rng, tier):
@@ -226,6 +278,57 @@ def batches(rng, tier):
         else:
             ops.append(f"apply {L(a)} {r.below(4)} {L(other())} {r.below(4)} {L(other())} {r.below(4)}")
     yield Batch("apply-sampled", ops, note="2 and 3 grids, sizes equal / differing in one extent / permuted")
+
+    # ---- static_row constructor (two-dimensional only): every row length and row count 1..4
+    ops = [f"rows {w} {h} {k}" for w in range(1, 5) for h in range(1, 5) for k in (0, 3)]
+    yield Batch("static-rows-all", ops, exhaustive=True, note="object(static_row...) for every row length and number of rows in 1..4 (non-square: the transposed size is visible)")
+
+    # ---- special members: copy/move constructor, copy/move assignment (also self), member and free swap (also self)
+    regcfg = [
+        "2 1 1 2 3 3", "0 1 2 2 2 3",
+        "2,1 1 1,2 2 0,3 3", "2,2 1 1,4 2 4,1 3",
+        "1,2,1 1 2,1,1 2 1,1,2 3",
+    ]
+    ops = []
+    for cfg in regcfg:
+        ops.append(f"regs {cfg} -")
+        for ln in (1, 2):
+            ops += [f"regs {cfg} {'.'.join(pr)}" for pr in reg_programs(ln)]
+    yield Batch("special-members-all-histories-2", ops, exhaustive=True,
+                note="three objects of different sizes (same content, different shape included), every legal history of <= 2 calls out of "
+                     "copy ctor, move ctor, copy assignment, move assignment, member swap, free swap over all (dst, src) incl. dst = src")
+    if thorough:
+        ops = [f"regs {regcfg[2]} {'.'.join(pr)}" for pr in reg_programs(3)]
+        yield Batch("special-members-all-histories-3", ops, exhaustive=True, note="every legal history of exactly 3 calls on the 2-D configuration")
+    r = rng.fork("regs")
+    ops = []
+    for _ in range(8000 if thorough else 1500):
+        cfg = r.choice(regcfg)
+        moved, pr = [False] * 3, []
+        for _ in range(r.range(3, 8)):
+            for _try in range(20):
+                op = r.choice(REG_OPS)
+                m = reg_apply(moved, op)
+                if m is not None:
+                    moved = m
+                    pr.append(op)
+                    break
+        ops.append(f"regs {cfg} {'.'.join(pr)}")
+    yield Batch("special-members-sampled", ops, note="random legal histories of 3..8 special-member calls")
+
+    # ---- comparison: every pair of sizes, cells equal / differing at the first, a middle, the last cell
+    ops = []
+    for n, exts in ((1, [0, 1, 2, 3, 4]), (2, [0, 1, 2, 3]), (3, [0, 1, 2])):
+        ds = dims(n, exts)
+        for a in ds:
+            ca = list(range(1, count([0] * n, a) + 1))
+            for b in ds:
+                for cb in cmp_cells(count([0] * n, b)):
+                    ops.append(f"cmp {L(a)} {L(ca) if ca else '-'} {L(b)} {L(cb) if cb else '-'}")
+    yield Batch("comparison-all-size-pairs", ops, exhaustive=True,
+                note="== != < > <= >= for every pair of sizes (N=1: extents 0..4, N=2: 0..3, N=3: 0..2), second operand's cells equal to "
+                     "1..n or differing by +-1 at the first / middle / last cell: same flattened cells with different shape, empty grids of "
+                     "different sizes, one cell list a prefix of the other")
 
     # ---- larger sizes, sampled
     r = rng.fork("large")
